@@ -142,7 +142,7 @@ CHECKS["C08"] = dict(
    ref="§5 C08, §11")
 
 CHECKS["C18"] = dict(
-   text="Machine-checked structural proof: a model of all 60 fields of SameReceiver and its components (the 64 leaf paths of the derived "
+   text="Machine-checked structural proof: a model of all 62 fields of SameReceiver and its components (the leaf paths of the derived "
         "Debug rendering), of the constructors and of every reset() method, statement by statement, with field values as opaque tokens; "
         "theorem: for EVERY state with the receiver's shape (every mutable field arbitrary, reachable or not) reset() leaves exactly what "
         "the constructor builds from the same configuration, hence any deterministic continuation behaves identically. Partial: float "
@@ -150,7 +150,7 @@ CHECKS["C18"] = dict(
         "built, at reset points swept through every phase of a transmission (incl. equalizer training, locked link, message pending), is "
         "parsed and run through the EXTRACTED model: field list equal, model reset(before) = impl after, model fresh(config_of before) = "
         "impl new; plus the event-trace differential reset-vs-new with timestamps on a following transmission. One genuine defect was "
-        "repaired (fix: 74c1f92).",
+        "repaired (fix: 74c1f92). For the DC blocker and the AGC, modelled bit-exactly in Flocq binary32: reset after ANY history = new.",
    note="Trusted: Coq kernel; hand-written structural model (tied by the Debug correspondence; a new or renamed field breaks the field-list "
         "check); extraction; Rust harness (dbgdump, rxaudio reset_at/skip), Debug parser, synthesiser. No axioms. Hypothesis shape_ok "
         "(window/coefficient lengths agree, equalizer never Disabled) is established by the constructor (theorem) and validated on every dump.",
@@ -201,7 +201,13 @@ CHECKS["C14"] = dict(
    ref="§5 C14, §11")
 
 CHECKS["C10"] = dict(
-   text="Discrete half proved, float half sampled (partial). Machine-checked for EVERY symbol stream: the link-layer invariant (no byte "
+   text="Discrete half proved, the first two float stages (DC blocker, AGC) proved bit-exactly in Flocq binary32, the rest of the float chain "
+        "sampled (partial). FLOAT: from ANY state of the DC blocker (NaN and infinities included) four window lengths of zero input give "
+        "back a new filter's windows and sums, and after ANY input history the filter IS a new filter up to the phase of its refresh counter "
+        "(before fix 2ef7c73 it never forgot: finding F13, refuted on the old definition with a 17-sample witness; the audio-level "
+        "witness left the receiver permanently deaf); for ANY sequence of finite samples with |x| <= 2^20, lock/unlock/reset, limits "
+        "0 <= min <= max <= 2^100 and bandwidth in [0,1] the AGC gain stays finite and inside its limits and every output is finite. The "
+        "Flocq model is compared bit for bit with the real Agc and DCBlocker (hook) on every run. DISCRETE: machine-checked for EVERY symbol stream: the link-layer invariant (no byte "
         "clock => not locked; sample history not full => no byte clock; power history within capacity) holds in every reachable state; "
         "from any such state - mid-burst, locked, searching, whatever the framer holds - 32 symbols of silence leave the squelch without "
         "byte clock and unlocked and the framer idle (never left deaf by its own state machine), and the sync gate is then open to the next "
@@ -213,10 +219,12 @@ CHECKS["C10"] = dict(
         "NEW one: after the 32 symbols a new receiver needs to fill its correlator, ANY input yields exactly the new receiver's events with "
         "timestamps offset by the samples consumed (end-to-end theorem C10_hostile_audio_has_no_lasting_effect, with a non-vacuity "
         "witness). Sampled on the real receiver: hostile prefixes composed from a "
-        "17-generator library (clipping square waves up to 2^20, DC steps, noise, tones, endless preamble/carrier, truncated and malformed "
+        "23-generator library (clipping square waves up to 2^20, DC steps, slowly rising near-DC staircases, noise, tones, endless preamble/carrier, truncated and malformed "
         "transmissions, level jumps, preamble-like tails), a 1..2 s gap, a clean transmission: no panic, finite state, decoded exactly, "
-        "tick-trace replay equal. Known findings F9 and F11 (a burst at low amplitude with noise occasionally runs on to the framer's limit).",
-   note=RX_NOTE,
+        "tick-trace replay equal. Known findings F9, F11 (a burst at low amplitude with noise occasionally runs on to the framer's limit) and F12 "
+        "(three different header bursts vote to a parsable fourth text); F13 fixed (2ef7c73).",
+   note=RX_NOTE + " The float theorems (Properties/C10_float.v) depend, through Flocq, on the standard library's classical-reals axioms "
+        "(sig_forall_dec, sig_not_dec, functional_extensionality_dep, classic); their Print Assumptions output is redirected to files the check reads.",
    technique="Coq invariant + recovery proofs over symbol streams + tick-trace replay correspondence + hostile-audio sampling under catch_unwind",
    ref="§5 C10, §11")
 
